@@ -49,6 +49,7 @@ structure Entry where
   arc : Option ArcInfo := none
   unreadable : Bool := false       -- the content cannot be opened (permission denied, dangling link)
   linkTarget : Option Str := none  -- `read_link` of a symbolic link (raw text)
+  gitIgnored : Bool := false       -- libgit2's `is_path_ignored` for the entry (external: snapshot fact)
   deriving Repr
 
 structure Config where
